@@ -102,6 +102,61 @@ for m["k"] = range 2 {
 	YIELD(int(m["k"]) + 80)
 }
 RETNIL`, "range:int-const-typed-nonident-key"),
+		G("range-labelled-loop-restarted-by-goto-in-plain-closure", `
+scan := func(xs []int) (out []int) {
+	tries := 0
+again:
+	for i, v := range xs {
+		tr.V(1, i*100+v)
+		out = append(out, v)
+		if v < 0 && tries < 2 {
+			tries++
+			xs = xs[i+1:]
+			goto again
+		}
+	}
+	return
+}
+for _, v := range scan([]int{1, -2, 3, -4, 5}) {
+	YIELD(v)
+}
+words := func(s string) (n int) {
+	restarted := false
+outer:
+	for i, r := range s {
+		tr.V(2, i)
+		switch {
+		case r == ' ' && !restarted:
+			restarted = true
+			s = s[i+1:]
+			goto outer
+		case r == 'x':
+			break outer
+		case r == 'é':
+			continue outer
+		}
+		n++
+	}
+	return
+}
+YIELD(words("ab cédx"))
+RETNIL`, "range-in-closure", "labels"),
+		G("range-constant-assigned-to-effectful-key-operand-in-plain-closure", `
+ring := make([]uint8, 5)
+pos := 0
+next := func() int { pos = (pos + 2) % 5; return tr.V(1, pos) }
+fill := func() {
+	for ring[next()] = range 3 {
+		tr.E(2)
+	}
+}
+fill()
+for _, b := range ring {
+	YIELD(int(b))
+}
+fill()
+YIELD(pos)
+RETNIL`, "range:int-const-typed-nonident-key", "range-in-closure"),
 		G("range-assign-form-value-operand-depends-on-key", `
 xs := []int{10, 20, 30}
 a := make([]int, 4)
